@@ -5,10 +5,10 @@ package main
 // as ndjson and validated by TLC against the relation Allowed of spec/ReaderObs.tla.
 
 import (
-	"encoding/binary"
 	"bufio"
 	"bytes"
 	"context"
+	"encoding/binary"
 	"encoding/json"
 	"fmt"
 	"io"
